@@ -62,10 +62,10 @@ def main():
         "notes": "Technique family: deterministic simulation with fault injection. See DESIGN.md (sections 7 and 10-13 for what was found, repaired and corrected). "
                  "Exit codes: 0 held, 1 violation (VIOLATION line + minimised replay file, replayed in a fresh interpreter), 2 harness error (never a violation). "
                  "Thorough tier = 15-30x the runs plus: C02/C18 compiled-kernel comparison, C02/C09 compiled call-sampler probe with 600 cases (60 already in quick), "
-                 "C09 compiled DenovoMCMC cache probe with 96 cases incl. overflow of the real 2**16-node cache (12 small cases already in quick), "
+                 "C09 compiled DenovoMCMC cache probe with 96 cases incl. overflow of the real 2**16-node cache (12 small cases already in quick), C09/C18 compiled pedigree-sampler probe against a cache-free twin with 400 cases (40 already in quick), "
                  "C08 real-multiprocessing fidelity probe and 24-batch hash-seed re-execution (12 batches already in quick). "
                  "Five genuine defects of MCHap are repaired by fix: commits in /repo (80c34e4 223b6e9 1d6f459 8c9a2b4 e747dde); one is a listed known finding (KF-C14-1, known_findings.json). "
-                 "seeded/ holds 128 independently written breaking changes with which the checks were tested (127 caught; C09-e1 is not: seeded/INDEX.md); sensitivity/ a catalogue of 37 source mutants (36 caught). "
+                 "seeded/ holds 144 independently written breaking changes with which the checks were tested (all 144 caught by the quick tier, 60 of them only after a strengthening: seeded/INDEX.md); sensitivity/ a catalogue of 37 source mutants (36 caught). "
                  "tools_soak.sh re-runs every check at many VERIF_SEED values.",
     }
     json.dump(doc, open(os.path.join(HERE, "MANIFEST.json"), "w"), indent=1)
